@@ -409,6 +409,20 @@ func runC16probe(o *Out, rng *RNG, tier string, replay string) {
 	if ob.RunErr == "hang" || ob.RunErr == "panic" || !ob.SurFailed || finRan || sucRan {
 		o.Fail("rejected_handler", fmt.Sprintf("rejected finally submission: run=%s surrounding failed=%v finally ran=%v success ran=%v", ob.RunErr, ob.SurFailed, finRan, sucRan), "rejected-handler", ob)
 	}
+	// scenario B: a failing handler's error is forwarded to the surrounding scope while its Close waits
+	p2 := &tryProg{Body: mk("body"), Finally: mk("finally"), Success: mk("success")}
+	p2.Success.Body = []*gCmd{{Kind: "fail"}}
+	ob2 := runTry(pa, rng, "fwd", p2, nil)
+	o.Extra["probe_forward"] = ob2
+	fin2 := false
+	for _, e := range ob2.Events {
+		if strings.HasPrefix(e.ID, "fwd."+p2.Finally.UID+".") {
+			fin2 = true
+		}
+	}
+	if ob2.RunErr == "hang" || ob2.RunErr == "panic" || !ob2.SurFailed || !fin2 {
+		o.Fail("rejected_handler", fmt.Sprintf("failing success handler: run=%s surrounding failed=%v finally ran=%v", ob2.RunErr, ob2.SurFailed, fin2), "failed-handler-forward", ob2)
+	}
 }
 
 func runC16(o *Out, rng *RNG, tier string, replay string) {
@@ -438,6 +452,36 @@ func runC16(o *Out, rng *RNG, tier string, replay string) {
 		only = rp.Case.Index
 		n = only + 1
 	}
+	// the rejected-handler probe, in a child process (the code before b43446f panics in a goroutine)
+	crashed := false
+	if only < 0 {
+		dir, e := os.MkdirTemp("", "c16probe")
+		must(e)
+		defer os.RemoveAll(dir)
+		cmd := exec.Command(os.Args[0], "C16probe", "-seed", "1", "-tier", tier, "-out", dir)
+		out, e := cmd.CombinedOutput()
+		o.Stat("rejected_handler_probe_runs")
+		if e != nil {
+			msg := string(out)
+			if len(msg) > 600 {
+				msg = msg[:600]
+			}
+			crashed = true
+			o.Fail("rejected_handler", "pip:try crashed the process when an error had to reach the surrounding scope (rejected handler submission / failed handler): "+msg, "rejected-handler-crash", map[string]string{"scenario": "A: task T:finally registered before `pip:try --name=T --body=begin --finally=begin --success=begin`; B: `pip:try --name=T --body=begin --finally=begin --success=fail`"})
+		} else {
+			var res struct {
+				Failures []Failure `json:"failures"`
+			}
+			b, e2 := os.ReadFile(dir + "/result.json")
+			if e2 == nil && json.Unmarshal(b, &res) == nil && len(res.Failures) > 0 {
+				o.Fail("rejected_handler", res.Failures[0].What, "rejected-handler", res.Failures[0].Case)
+			}
+		}
+	}
+	if crashed {
+		return // the same crash would take this process down: the in-process cases are not run
+	}
+
 	seed := rng.Next()
 	for idx := 0; idx < n; idx++ {
 		crng := rng.Fork()
@@ -479,28 +523,5 @@ func runC16(o *Out, rng *RNG, tier string, replay string) {
 			break
 		}
 	}
-	// the rejected-handler probe, in a child process (the code before b43446f panics in a goroutine)
-	if only < 0 {
-		dir, e := os.MkdirTemp("", "c16probe")
-		must(e)
-		defer os.RemoveAll(dir)
-		cmd := exec.Command(os.Args[0], "C16probe", "-seed", "1", "-tier", tier, "-out", dir)
-		out, e := cmd.CombinedOutput()
-		o.Stat("rejected_handler_probe_runs")
-		if e != nil {
-			msg := string(out)
-			if len(msg) > 600 {
-				msg = msg[:600]
-			}
-			o.Fail("rejected_handler", "a rejected handler submission crashed the process: "+msg, "rejected-handler-crash", map[string]string{"scenario": "task T:finally registered before `pip:try --name=T --body=begin --finally=begin --success=begin`"})
-		} else {
-			var res struct {
-				Failures []Failure `json:"failures"`
-			}
-			b, e2 := os.ReadFile(dir + "/result.json")
-			if e2 == nil && json.Unmarshal(b, &res) == nil && len(res.Failures) > 0 {
-				o.Fail("rejected_handler", res.Failures[0].What, "rejected-handler", res.Failures[0].Case)
-			}
-		}
-	}
+
 }
